@@ -2,6 +2,7 @@ pub mod c01;
 pub mod c03;
 pub mod c04;
 pub mod c05;
+pub mod c06;
 pub mod c08;
 pub mod c09;
 pub mod c10;
@@ -15,6 +16,7 @@ pub fn run(ctx: &Ctx) -> i32 {
         "C03" => c03::run(ctx),
         "C04" => c04::run(ctx),
         "C05" => c05::run(ctx),
+        "C06" => c06::run(ctx),
         "C08" => c08::run(ctx),
         "C09" => c09::run(ctx),
         "C10" => c10::run(ctx),
@@ -32,6 +34,7 @@ pub fn replay(id: &str, payload: &serde_json::Value) -> bool {
         "C03" => c03::replay(payload),
         "C04" => c04::replay(payload),
         "C05" => c05::replay(payload),
+        "C06" => c06::replay(payload),
         "C08" => c08::replay(payload),
         "C09" => c09::replay(payload),
         "C10" => c10::replay(payload),
